@@ -1441,6 +1441,17 @@ impl<'a> VisitMut for Rewriter<'a> {
                             self.n.errors.push(format!("unsupported .extend() argument at source line {}", sp.start().line));
                         }
                     }
+                    ("or_default", 0) => {
+                        // N16b: `m.entry(k).or_default()` -> `m.entry_or_default(k)` (one model method of the unit's map type: the value at
+                        // k, inserting Default::default() first when absent — the std definition of the two calls together)
+                        if let Expr::MethodCall(inner) = strip_paren(&m.receiver) {
+                            if inner.method == "entry" && inner.args.len() == 1 {
+                                let (r, k) = (&inner.receiver, &inner.args[0]);
+                                self.n.rule("N16", sp, "m.entry(k).or_default() -> m.entry_or_default(k)");
+                                replacement = Some(parse_quote!(#r.entry_or_default(#k)));
+                            }
+                        }
+                    }
                     ("fold", 2) => {
                         if let (Some(it), Expr::Closure(c)) = (parse_iter(&m.receiver, false), strip_paren(&m.args[1])) {
                             let init = m.args[0].clone();
